@@ -129,7 +129,7 @@ def bign_key_ops(rng, tier, sch, f, prefix):
     def kp(d, x, yy, k, exp):
         ops.append(Op("%skp %s %s %s" % (sch, par, hx(d, no), hx(x, no) + hx(yy, no)), exp, "%s:kp:%s" % (prefix, k)))
     # twist: y^2 = x^3 + a x + b has no solution for such x
-    cnt = 4 if tier == "quick" else 30
+    cnt = (4 if no <= 32 else 2) if tier == "quick" else 30
     for _ in range(cnt):
         d = rng.randrange(1, q)
         Q = E.mul(d, G)
@@ -841,7 +841,7 @@ def find_gf2_poly(m, W):
 def ec2group_ops(rng, tier, W):
     ops = []
     pre = "W32 " if W == 32 else ""
-    ms = [W + 3, W + 4, W + 15, 2 * W - 1, 2 * W + 2, 163 if W == 64 else 3 * W + 3]   # even m: (c n - 2^m - 1)^2 = 4 2^m is reachable
+    ms = [W + 3, W + 4, 2 * W - 1, 2 * W + 2, 163 if W == 64 else 3 * W + 3]   # even m: (c n - 2^m - 1)^2 = 4 2^m is reachable
     if tier != "quick":
         ms += [W + 5, W + 9, W + 21, 2 * W + 7, 3 * W - 1, 3 * W + 3, 4 * W + 1, 163, 233]
     for m in ms:
@@ -851,12 +851,14 @@ def ec2group_ops(rng, tier, W):
         F = Gf2(md)
         no = (m + 7) // 8
         A = rng.randrange(2)
-        Bc = rng.getrandbits(m) | 1
-        E = Ec2(F, A, Bc)
+        # a curve through a chosen point: B = y^2 + xy + x^3 + A x^2
         while True:
-            P = E.lift_x(rng.getrandbits(m))
-            if P is not None:
+            P = (rng.getrandbits(m) | 1, rng.getrandbits(m))
+            Bc = F.sqr(P[1]) ^ F.mul(P[0], P[1]) ^ F.mul(F.sqr(P[0]), P[0]) ^ F.mul(A, F.sqr(P[0]))
+            if Bc:
                 break
+        E = Ec2(F, A, Bc)
+        assert E.on(P)
         s = isqrt(4 << m)
 
         def add(q, cof, mov, k, x=P[0], y=P[1], B=Bc):
@@ -906,7 +908,7 @@ def generate(ctx, std, bels, lr_stb, lr_pfok):
             heavy = tier != "quick" or m <= 191
             light = tier == "quick" and m > 191
             ops += dstu_ops(rng, tier, 64, f, prefix, heavy, light)
-            if m in (163, 257) or tier != "quick":
+            if m == 163 or tier != "quick":
                 ops += dstu_ops(rng, tier, 32, f, prefix + "/w32", heavy, light or tier == "quick")
         elif sch == "stb99":
             if tier != "quick" or name in ("test", "1.2.112.0.2.0.1176.2.3.3.1"):
